@@ -10,7 +10,7 @@ import (
 
 // Differential validation of tpFormula against the native time.Parse.
 func TestTimeParseFormula(t *testing.T) {
-	layouts := []string{"20060102", "02012006", "2006-01-02", "Jan _2 15:04:05", "2006/01/02 15:04:05", "Jan _2 15:04:05 2006", "15:04:05", "02 Jan 2006"}
+	layouts := []string{"20060102", "02012006", "2006-01-02", "Jan _2 15:04:05", "2006/01/02 15:04:05", "Jan _2 15:04:05 2006", "15:04:05", "02 Jan 2006", "Jan _2 15:04:05 -0700", "2006-01-02 15:04 -0700"}
 	rng := rand.New(rand.NewSource(7))
 	s := NewSolver(20000, "z3", "-in")
 	defer s.Close()
@@ -23,7 +23,8 @@ func TestTimeParseFormula(t *testing.T) {
 		// candidate strings: formatted random instants, mutated
 		var cands []string
 		for i := 0; i < 150; i++ {
-			tm := time.Date(rng.Intn(2300), time.Month(1+rng.Intn(12)), 1+rng.Intn(31), rng.Intn(24), rng.Intn(60), rng.Intn(60), 0, time.UTC)
+			zone := time.FixedZone("", (rng.Intn(49)-24)*1800)
+			tm := time.Date(rng.Intn(2300), time.Month(1+rng.Intn(12)), 1+rng.Intn(31), rng.Intn(24), rng.Intn(60), rng.Intn(60), 0, zone)
 			v := tm.Format(layout)
 			cands = append(cands, v)
 			for k := 0; k < 6; k++ {
@@ -79,9 +80,10 @@ func TestTimeParseFormula(t *testing.T) {
 			}
 			if r == "sat" && err == nil {
 				okCount++
-				want := map[string]int{"year": tm.Year(), "month": int(tm.Month()), "day": tm.Day(), "hour": tm.Hour(), "min": tm.Minute(), "sec": tm.Second(), "nsec": tm.Nanosecond()}
+				_, zoff := tm.Zone()
+				want := map[string]int{"year": tm.Year(), "month": int(tm.Month()), "day": tm.Day(), "hour": tm.Hour(), "min": tm.Minute(), "sec": tm.Second(), "nsec": tm.Nanosecond(), "zoff": zoff}
 				for k, w := range want {
-					got := int(parseBV(s.GetValue(fields[k])))
+					got := int(int32(parseBV(s.GetValue(fields[k]))))
 					if got != w {
 						t.Errorf("layout %q value %q: field %s = %d, native %d", layout, v, k, got, w)
 					}
